@@ -94,6 +94,11 @@ DigitFamFull == { s \in { Add(IF b = 1 THEN RMod ELSE Zero, DigitVal(<<d0, d1, d
                                                                                          d3 \in DigitChoices \cup { XAbs, Add(XAbs, FromNat(5)) } } : Lt(s, Pow2(256)) }
 DigitFamCore == { s \in { Add(IF b = 1 THEN RMod ELSE Zero, DigitVal(<<d0, d1, Zero, d3>>)) : b \in {0, 1}, d0 \in { Zero, Sub(XAbs, One) }, d1 \in { Zero, FromNat(5) },
                                                                                           d3 \in { One, Sub(XAbs, One), XAbs, Add(XAbs, FromNat(5)) } } : Lt(s, Pow2(256)) }
+\* scalars in which a leading part is an exact multiple of |x| (the division by |x| then meets a partial remainder equal to the divisor)
+DivFam256 == LET x == XAbs IN
+  { Add(Mul(x, Pow2(64)), Pow2(63)), Add(Mul(Mul(FromNat(3), x), Pow2(62)), Sub(Pow2(62), One)), Add(Mul(Mul(FromNat(5), x), Pow2(128)), Pow2(127)),
+    Add(Mul(x, Pow2(180)), Sub(Pow2(180), One)), Add(Mul(Mul(FromNat(65537), x), Pow2(100)), Pow2(99)),
+    Add(FromNat(7), Mul(x, Add(Mul(x, Pow2(64)), Pow2(63)))), Add(RMod, Add(Mul(x, Pow2(64)), Pow2(63))), Sub(Mul(x, Pow2(64)), One) }
 Scalars(bits) ==
   { s \in { Zero, One, Two, FromNat(15), FromNat(16), FromNat(17), FromNat(31), FromNat(32), FromNat(33) }
           \cup UNION { Near(k, Js) : k \in { kk \in {32, 64, 128, 192, 255, 256, 384, 511} : kk < bits } }
@@ -125,12 +130,12 @@ ScalarCases(g) ==
                       b \in { bb \in Bases(g) : bb.sub = 1 /\ bb.affine = 0 },
                       s \in { Zero, One, Sub(RMod, One), RMod, Sub(Pow2(256), One), XAbs, Mul(XAbs, Mul(XAbs, XAbs)), ModPow2(Mul(Rnd(901), Rnd(951)), 256) }, al \in {0, 1} })
            \o SetToSeq({ [op |-> "mul.fast", g |-> 2, base |-> b.base, affine |-> b.affine, k |-> Pad(s, 32), alias |-> 0, api |-> "cpp", src |-> "gen"] :
-                         b \in { bb \in Bases(g) : bb.sub = 1 /\ bb.affine = 0 }, s \in DigitFamCore }))
+                         b \in { bb \in Bases(g) : bb.sub = 1 /\ bb.affine = 0 }, s \in DigitFamCore \cup DivFam256 }))
      \* note: the statically dispatched 256-bit "multiply" is the accelerated routine and is only fed subgroup bases by the replayer filter below
 RecodeCases ==
   SetToSeq(UNION { { [op |-> "wnaf.recode", bits |-> bw[1], window |-> bw[2], k |-> Pad(s, bw[1] \div 8), src |-> "gen"] : s \in Scalars(bw[1]) } :
              bw \in { <<64, 2>>, <<64, 4>>, <<128, 4>>, <<256, 4>>, <<256, 2>>, <<512, 4>> } })
-  \o SetToSeq({ [op |-> "powx.decompose", k |-> Pad(s, 32), src |-> "gen"] : s \in Scalars(256) \cup DigitFamFull })
+  \o SetToSeq({ [op |-> "powx.decompose", k |-> Pad(s, 32), src |-> "gen"] : s \in Scalars(256) \cup DigitFamFull \cup DivFam256 })
 
 Fits(c) == c.op # "wnaf.recode" \/ Lt(Norm(c.k), Pow2(c.bits))
 Cases == IF What = "points" THEN PointCases(1) \o PointCases(2)
